@@ -1,8 +1,10 @@
 package tcplistener
 
 import (
+	"errors"
 	"net"
 	"sync"
+	"syscall"
 	"time"
 
 	"github.com/relex/gotils/channels"
@@ -107,6 +109,12 @@ func (listener *tcpLineListener) run() {
 	for {
 		newConn, acceptErr := listener.socket.AcceptTCP()
 		if acceptErr != nil {
+			if isTransientAcceptError(acceptErr) {
+				// e.g. out of file descriptors for a moment: the listener itself is fine, try again shortly
+				listener.logger.Warn("failed to accept() connection, retry later: ", acceptErr)
+				listener.stopRequest.Wait(acceptRetryInterval)
+				continue
+			}
 			if !(listener.stopRequest.Peek() && util.IsNetworkClosed(acceptErr)) {
 				// not closed on stop request
 				listener.logger.Warn("failed to accept() connection while listener is alive: ", acceptErr)
@@ -146,6 +154,19 @@ func (listener *tcpLineListener) run() {
 
 	// mark the listener itself as done, note there could still be established connections
 	listener.taskCounter.Done()
+}
+
+// acceptRetryInterval is the pause before accept() is tried again after a transient error
+const acceptRetryInterval = 100 * time.Millisecond
+
+// isTransientAcceptError tells whether accept() failed for a reason that leaves the listening socket usable
+func isTransientAcceptError(err error) bool {
+	for _, errno := range []syscall.Errno{syscall.EMFILE, syscall.ENFILE, syscall.ENOBUFS, syscall.ENOMEM, syscall.ECONNABORTED} {
+		if errors.Is(err, errno) {
+			return true
+		}
+	}
+	return false
 }
 
 func (listener *tcpLineListener) runConnection(connLogger logger.Logger, conn *net.TCPConn, clientNumber base.ClientNumber) {
